@@ -13,7 +13,7 @@ CLAIMED = {
    text="Theorem C01_expansion (Coq): for every well-formed expression tree the model of hostlist_create + opt.c's second-bracket pass + iteration yields exactly the mathematical expansion (unbounded: any number of words, ranges, widths). The model is tied to /repo on every run by running the extracted model and the implementation (hostlist.c included into an ASan/UBSan harness) on generated trees and by an independent Python expander (S).",
    note=COMMON_NOTE + "libc strtoul/snprintf/isdigit are modelled; domain D01 (numbers < 10^15, names within the code's fixed buffers) is part of the theorem statement.",
    technique="Coq proof of model = spec + extracted-model correspondence check"),
- "C13_PENDING": dict(engine="cbuf", section="6 C13",
+ "C13": dict(engine="cbuf", section="6 C13",
    text="Coq refinement proof: a ring-buffer model of cbuf.c (index level, growth, three overwrite modes, line operations, descriptor writes with arbitrary short reads) satisfies the C's own validity invariant on every operation history and refines a plain FIFO with exact drop accounting. Tied to /repo by running extracted model and cbuf.c (read(2) scripted) on generated operation histories, step by step, plus an independent FIFO oracle.",
    note=COMMON_NOTE + "pdsh's NDEBUG build of cbuf.c; realloc keeps old contents; replay/rewind/copy/move not modelled (never called by pdsh).",
    technique="Coq invariant + refinement proof, extracted-model correspondence on op histories"),
@@ -29,6 +29,18 @@ CLAIMED = {
    text="Coq theorems: the -S aggregation equals max(max code, 254 if any host failed) for every outcome vector and is invariant under permutation; it is 0 iff every command ran and succeeded; a signalled child never counts as success; without -S the status is 0. Tied to /repo three ways: _extract_rc and the whole output path on marker lines (unit harness vs extracted model), the aggregation through the whole program under the controlled scheduler over outcome vectors in all orders, and real children through the exec transport.",
    note=COMMON_NOTE + "atoi modelled for codes that fit an int; in-band status requires the remote shell to survive (protocol limitation).",
    technique="Coq proof (aggregation = max, order independence) + three correspondence runs"),
+ "C03": dict(engine="sched", section="6 C03",
+   text="Coq theorems on the dispatcher/worker transition system of dsh.c (every lock, unlock, wait, signal and wake-up is a step; spurious wake-ups allowed wherever the dispatcher is parked), for every n >= 1, fanout >= 1 and every admitted event sequence: each target is created/connected/destroyed at most once and in that order, only real targets are started, the exit event implies every target was started exactly once, torn down and has signalled completion (threadcount 0), every reachable non-exited state has an enabled non-spurious step (no lost wake-up, no deadlock), and every run is at most 12n+8+3*spurious steps long. Tied to /repo by trace acceptance: the whole unmodified pdsh program runs under a controlled scheduler (link-time --wrap of pthread_*/poll/read/...) on sampled schedules with injected spurious wake-ups, its event trace must be accepted step by step by the extracted transition function, and the same runs are judged by counting connects/destroys per host inside the scripted transport.",
+   note=COMMON_NOTE + "Interleavings are at wrapped-call granularity (a data race between two plain loads/stores is invisible); glibc/pthread semantics are modelled by the transition system; the theorem is about the model, the tie is trace acceptance on sampled schedules.",
+   technique="Coq invariant/termination proof on an executable LTS + trace acceptance of the real program under a controlled scheduler"),
+ "C04": dict(engine="sched", section="6 C04",
+   text="Coq invariant proof on the same transition system, for every n >= 1, fanout f >= 1 and every admitted event sequence including spurious wake-ups: in-flight connections <= started-and-not-finished workers <= f and 0 <= threadcount <= f; progress: with room and targets left the next create is reachable by scheduling steps only; the variant without the re-check after a wake-up is refuted by a computed witness (the defect repaired by 7bd1d3a). Tied to /repo by trace acceptance of the real program under the controlled scheduler with spurious wake-ups injected at every cond_wait and by the measured peak of connections inside the scripted transport.",
+   note=COMMON_NOTE + "Same limits as C03: wrapped-call granularity, sampled schedules.",
+   technique="Coq invariant proof on an executable LTS + trace acceptance and peak measurement on the real program under a controlled scheduler"),
+ "C18": dict(engine="args", section="6 C18",
+   text="Coq theorems on a model of opt_default/opt_env/opt_args/opt_verify restricted to fanout, the two timeouts, remote user, transport, misc modules and remote pdcp path, for every environment and every option list (any order, any repetition): whatever pdsh runs with is valid (fanout >= 1, timeouts >= 0, known transport); each setting is the last command-line occurrence, else the environment value, else the default; non-numeric/zero/negative/overflowing fanout, malformed numeric environment values, negative timeouts, over-long user names and unknown transports are refused. Tied to /repo by running the rebuilt pdsh binary (-q dump, exit status, no contact) and the extracted model on generated env x argv combinations, with an independent Python statement of the precedence rule as oracle.",
+   note=COMMON_NOTE + "getopt and libc strtoul/atoi are modelled (atoi leniency for -t/-u is carried exactly); only the settings named by the property are modelled.",
+   technique="Coq proof on the settings model + extracted-model correspondence against the real binary"),
 }
 
 checks, na = [], []
@@ -52,7 +64,8 @@ m = {"version": 1, "setup_cmd": "./setup.sh",
          {"name": "out", "path": "harness/dsh_unit_harness.c", "serves_properties": ["C05", "C06", "C08"], "kind_free_text": "dsh.c #included, per-host output path driven by a scripted descriptor with stdio calls captured (read/close/fputs wrapped at link time); extracted Coq model runner ocaml/dsh_runner.ml"},
          {"name": "sched", "path": "sched/sched.c", "serves_properties": ["C03", "C04", "C07", "C08", "C20"], "kind_free_text": "the whole unmodified pdsh program under a token scheduler interposed with -Wl,--wrap on pthread_*/poll/read/sleep/time/fputs/exit; scripted transport module sched/simrcmd.c loaded by pdsh's own loader; traces validated by the extracted Coq transition system"},
          {"name": "exec", "path": "lib/realeng.py", "serves_properties": ["C08"], "kind_free_text": "the real pdsh binary rebuilt out of tree with a scratch module directory, real children through the exec module"},
-         {"name": "cbuf", "path": "harness/cbuf_harness.c", "serves_properties": ["C13"], "kind_free_text": "cbuf.c #included with read(2) scripted; extracted Coq model runner ocaml/cbuf_runner.ml"}],
+         {"name": "cbuf", "path": "harness/cbuf_harness.c", "serves_properties": ["C13"], "kind_free_text": "cbuf.c #included with read(2) scripted; extracted Coq model runner ocaml/cbuf_runner.ml"},
+         {"name": "args", "path": "lib/realeng.py", "serves_properties": ["C18", "C10"], "kind_free_text": "the real pdsh binary rebuilt out of tree (scratch module dir) run with -q / -Q / -R exec on generated env, argv and file trees; extracted Coq model runner ocaml/args_runner.ml; harness/wcoll_harness.c for read_wcoll"}],
      "checks": checks, "not_applicable": na,
      "notes": "Genuine defects repaired in /repo are listed in KNOWN_FINDINGS.json (status fixed) with their witnesses under corpus/, which every run replays first."}
 json.dump(m, open(os.path.join(V, "MANIFEST.json"), "w"), indent=1)
